@@ -26,6 +26,9 @@ structure Cell where
   mp : Nat := 0
   ml : Nat := 0
   ready : Bool := false
+  /-- 4 KiB page (mod 4) of the object: selects its 2-bit field of the side LOS byte. Every slot lies in
+  page 1; only the LOS group races (`casbit judgeat`) use the objects of pages 0, 2, 3. -/
+  page : Nat := 1
 
 inductive Loc | w0 | w1 | w2 | mf | mm | mg | mp | ml
 
@@ -60,7 +63,7 @@ def pinF (c : Cell) : Fld :=
   match c.l with | 0 => ⟨.mp, c.slot % 8, 1⟩ | 1 => ⟨.w2, 7, 1⟩ | 2 => ⟨.w1, 1, 1⟩ | _ => ⟨.w2, 15, 1⟩
 /-- (side LOS spec: one 2-bit field per 4 KiB page; every slot lies in page 1 of its 4-page byte) -/
 def losF (c : Cell) : Fld :=
-  match c.l with | 0 => ⟨.ml, 2, 2⟩ | 1 => ⟨.w2, 8, 2⟩ | 2 => ⟨.w1, 4, 2⟩ | _ => ⟨.w2, 22, 2⟩
+  match c.l with | 0 => ⟨.ml, 2 * (c.page % 4), 2⟩ | 1 => ⟨.w2, 8, 2⟩ | 2 => ⟨.w1, 4, 2⟩ | _ => ⟨.w2, 22, 2⟩
 def ptrLoc (c : Cell) : Loc := if c.l == 0 || c.l == 2 then .w0 else .w1
 /-- `forwarding_bits_offset_in_forwarding_pointer` -/
 def oneStepShift (c : Cell) : Option Nat := match c.l with | 1 => some 0 | 3 => some 56 | _ => none
@@ -303,6 +306,34 @@ def casJudge (c : Cell) (args : List String) : String :=
     | _, _, _, _, _, _, _ => "reject:parse"
   | _ => "bad-op"
 
+/-! ### verdicts on multi-object races (`group.rs`): object `j` of a group whose template is the cell
+
+Every object of the group is judged on its own by the same `outcomeOk` predicates; that this is sound
+although the objects' fields share one metadata byte (byte-wide compare-exchange) is
+`Mmtk.CasByte.neighbours_independent` / `Mmtk.FwdByte.neighbours_independent` (Props/C18Byte, C17Byte).
+The initial field of object `j` is read from the template cell (`slot := j`, LOS: `page := j`). -/
+
+/-- `fwd judgeat <j> copy|immix <n> r=… copies=… q=… | <final cell of object j>` -/
+def fwdJudgeAt (c : Cell) (args : List String) : String :=
+  match args with
+  | j :: rest =>
+    match num? j with
+    | some j => if c.l != 0 || j > 7 then "reject:group" else fwdJudge { c with slot := j } rest
+    | none => "reject:parse"
+  | _ => "bad-op"
+
+/-- `casbit judgeat <j> <kind> <n> <env> <arg> <nursery> t=… f=… | <final cell of object j>` -/
+def casJudgeAt (c : Cell) (args : List String) : String :=
+  match args with
+  | j :: kind :: rest =>
+    match num? j with
+    | some j =>
+      if c.l != 0 || j > 7 then "reject:group"
+      else if kind == "los" then (if j > 3 then "reject:group" else casJudge { c with page := j } (kind :: rest))
+      else casJudge { c with slot := j } (kind :: rest)
+    | none => "reject:parse"
+  | _ => "bad-op"
+
 /-! ### dispatch -/
 
 def cellOp (c : Cell) (args : List String) : Cell × String :=
@@ -321,6 +352,8 @@ def step (debug : Bool) (c : Cell) (toks : List String) : Option (Cell × String
   | [comp] => if comp == "cell" || comp == "fwd" || comp == "casbit" then some (c, "bad-op") else none
   | "cell" :: args => some (cellOp c args)
   | "fwd" :: "judge" :: args => some (c, if c.ready then fwdJudge c args else "bad-op no-cell")
+  | "fwd" :: "judgeat" :: args => some (c, if c.ready then fwdJudgeAt c args else "bad-op no-cell")
+  | "casbit" :: "judgeat" :: args => some (c, if c.ready then casJudgeAt c args else "bad-op no-cell")
   | "casbit" :: "judge" :: args => some (c, if c.ready then casJudge c args else "bad-op no-cell")
   | "fwd" :: args => some (if c.ready then fwdOp debug c args else (c, "bad-op no-cell"))
   | "casbit" :: args => some (if c.ready then casOp c args else (c, "bad-op no-cell"))
